@@ -1,7 +1,7 @@
 #!/usr/bin/env python3
 """Regenerates MANIFEST.json from checks.json (claimed checks) and properties.jsonl."""
 import json, os, subprocess
-HOOK_COMMIT = subprocess.run(["git", "-C", "/repo", "log", "--format=%h", "--grep=^verif hooks", "-1"], capture_output=True, text=True).stdout.strip() or "d45e296"
+HOOK_COMMITS = subprocess.run(["git", "-C", "/repo", "log", "--reverse", "--format=%h", "--grep=^verif hooks"], capture_output=True, text=True).stdout.split() or ["d45e296", "21746da"]
 ROOT = os.path.dirname(os.path.abspath(__file__))
 checks = json.load(open(os.path.join(ROOT, "checks.json")))
 props = [json.loads(l) for l in open(os.path.join(ROOT, "properties.jsonl"))]
@@ -11,9 +11,9 @@ man = {
     "setup_cmd": "make -C /verif build",
     "hooks": {
         "guard": "verif",
-        "enable": "go build/test -tags verif (the engine always loads /repo with -tags=verif; only the schedule harnesses in harness/hsched need the hooks: wal.VerifSched named schedule points)",
+        "enable": "go build/test -tags verif (the engine always loads /repo with -tags=verif; only the schedule harnesses in harness/hsched need the hooks: wal.VerifSched and segment.VerifSched named schedule points)",
         "baseline_off_cmd": "cd /repo && go test -vet=off -count=1 -timeout 25m ./...",
-        "source_commits": [HOOK_COMMIT],
+        "source_commits": HOOK_COMMITS,
         "add_only": True,
     },
     "engines": [{
